@@ -454,3 +454,88 @@ def rule_empty_keeps_attrs(ctx):
         else:
             ctx.violated("EMPTYATTR", kk, f.where(line), "the exit taken for a data set without data jumps to `%s`, behind the call of diff_sds_attrs: attribute differences of such data sets are never reported" % lab)
     return n
+
+
+def _static_type(e):
+    e = unseen(e)
+    k = kind(e)
+    if k == "cast":
+        return e[1]
+    if k == "var":
+        return e[3]
+    if k == "mem":
+        return e[4]
+    if k == "idx":
+        return e[3]
+    if k == "call":
+        return e[4]
+    if k == "deref":
+        return e[2]
+    if k in ("bin", "asg"):
+        return e[4] if k == "bin" else e[5]
+    if k == "flt":
+        return "double"
+    if k == "un":
+        return _static_type(e[2])
+    return None
+
+
+def rule_float_abs(ctx):
+    """FABS (C19): `abs()` takes an int.  Given a floating-point argument it truncates it first, so a difference smaller than 1
+    (or larger than INT_MAX) has 'absolute value' 0 and hdiff reports two different float values as equal.  The absolute value
+    of a floating-point expression is taken with fabs()/fabsf(), in the tools as in the library."""
+    prog = ctx.prog
+    n = 0
+    for f in prog.funcs:
+        ordn = 0
+        for _b, _i, s, c in f.calls():
+            if c[1] not in ("abs", "labs", "fabs", "fabsf") or not c[3]:
+                continue
+            ordn += 1
+            n += 1
+            key = "FABS:%s#%d" % (f.name, ordn)
+            t = str(_static_type(c[3][0]) or "")
+            floating = any(w in t for w in ("float", "double"))
+            if c[1] in ("abs", "labs") and floating:
+                ctx.violated("FABS", key, f.where(c[5]), "`%s` passes a %s expression to %s(): the value is truncated to an integer before its absolute value is taken" % (render(c)[:60], t, c[1]))
+            else:
+                ctx.holds("FABS", key, f.where(c[5]), "%s(%s)" % (c[1], t or "?"), nontrivial=False)
+    ctx.floor("FABS", 6, n, "(absolute-value calls)")
+    return n
+
+
+FMT_NAME_TYPES = {"fmtint8": "int8", "fmtuint8": "uint8", "fmtint16": "int16", "fmtuint16": "uint16", "fmtint32": "int32", "fmtuint32": "uint32",
+                  "fmtfloat32": "float32", "fmtfloat64": "float64", "fmtshort": "short", "fmtchar": "char", "fmtuchar8": "uchar8", "fmtbyte": "unsigned char"}
+
+
+def rule_fmt_local_type(ctx):
+    """FMTTYPE (C19): hdp prints a value by copying its bytes into a local (`memcpy(&v, x, sizeof(T))`) and formatting the local.
+    In each fmt<T> routine the local has the type the routine is named after, and the memcpy length is that type's size; with a
+    signed local in fmtuint32 every value from 2^31 up is printed sign-extended."""
+    prog = ctx.prog
+    n = 0
+    for f in prog.funcs:
+        if "mfhdf/hdp/" not in f.rel or f.name not in FMT_NAME_TYPES:
+            continue
+        want = FMT_NAME_TYPES[f.name]
+        decls = {}
+        for _b, _i, _s, x in f.nodes(True):
+            if x[0] == "decl":
+                for d in x[1]:
+                    decls[d[0]] = str(d[1])
+        for _b, _i, _s, c in f.calls():
+            if c[1] != "memcpy" or len(c[3]) < 3:
+                continue
+            a = strip(c[3][0])
+            if kind(a) != "addr" or kind(strip(a[1])) != "var":
+                continue
+            v = strip(a[1])[1]
+            n += 1
+            key = "FMTTYPE:%s" % f.name
+            have = decls.get(v, "?")
+            if have.replace(" ", "") == want.replace(" ", ""):
+                ctx.holds("FMTTYPE", key, f.where(c[5]), "the value is formatted from a local of type %s" % have, nontrivial=True)
+            else:
+                ctx.violated("FMTTYPE", key, f.where(c[5]), "%s copies the value into a local of type `%s`, not `%s`: values outside that type's range are printed wrongly (e.g. sign-extended)" % (f.name, have, want))
+    ctx.floor("FMTTYPE", 6, n, "(hdp value formatters)")
+    return n
